@@ -1144,3 +1144,55 @@ def alias_root(fn, nid):
         else:
             return None
     return None
+
+
+# ------------------------------------------------------------------------------------------------ snapshots of object state
+
+def _mutators(fb, fn):
+    """element ids of fn that may change the state of *this: stores to members, ++/--, non-const calls on this / its members."""
+    out = []
+    for n in fn.all_nodes():
+        k = n.get('k')
+        if k == 'assign' and fn.root_var(n['lhs']) is not None and fn.root_var(n['lhs'])[0] in ('field', 'this'):
+            out.append(n['id'])
+        elif k == 'unop' and n.get('op') in ('++', '--') and fn.root_var(n['sub']) is not None and fn.root_var(n['sub'])[0] in ('field', 'this'):
+            out.append(n['id'])
+        elif k == 'call' and n.get('recv') is not None and 'q' in n:
+            rv = fn.root_var(n['recv'])
+            if rv is None or rv[0] not in ('field', 'this'):
+                continue
+            nm = n['q'].rsplit('::', 1)[-1]
+            hs = fb.by_usr.get(n.get('u'), [])
+            if (hs and hs[0].const) or (n['q'].startswith('std::') and nm in _CONST_OBSERVERS) or getter_body(fb, fn, n) is not None:
+                continue
+            out.append(n['id'])
+    return out
+
+
+def snapshot_init(fb, fn, d, use):
+    """local d (never written again, not a reference) was initialised from an expression over the object's state, and no statement
+    that may change that state lies between its declaration and `use` (an element id): -> init expr id, else None.
+    `const auto old = capacity(); if (n <= old) return;` -- at the test, `old` still equals capacity()."""
+    if d in assigned_vars(fn) or _decl_type(fn, d).rstrip().endswith('&'):
+        return None
+    init = local_init(fn, d)
+    decl = next((m for m in fn.all_nodes() if m.get('k') == 'decl' and any(v['d'] == d for v in m['vars'])), None)
+    if init is None or decl is None:
+        return None
+    for m in _mutators(fb, fn):
+        if m == use or m in fn.subtree(decl['id']):
+            continue
+        if path_search(fn, decl['id'], lambda e: e == m, lambda e: e == use) is not None \
+                and path_search(fn, m, lambda e: e == use, lambda e: e == decl['id']) is not None:
+            return None
+    return init
+
+
+def state_text(fb, fn, nid, use):
+    """ctext, with a local that is a still-valid snapshot of object state (see snapshot_init) replaced by what it was read from."""
+    n = scn(fn, nid)
+    if n is not None and n.get('k') == 'var' and n.get('vk') == 'local':
+        init = snapshot_init(fb, fn, n['d'], use)
+        if init is not None:
+            return ctext(fb, fn, init)
+    return ctext(fb, fn, nid)
